@@ -277,3 +277,5 @@ Definition v_take_only : variant := mkVariant false false false false false.    
 Definition v_take_drop : variant := mkVariant false true false false false.        (* + sender dropped before the IO join *)
 Definition v_take_drop_wake : variant := mkVariant false true true false false.    (* + join wakes the thread *)
 Definition v_repaired : variant := mkVariant false true true true false.
+(* everything except the wake-up, with the shutdown handler registered before the blocking accept instead *)
+Definition v_register_first : variant := mkVariant false true false true true.
